@@ -391,7 +391,7 @@ theorem checkAcks_sendAck (cfg : Cfg) (hperm : OrdPerm cfg) {x b : Spec.A} {s : 
 
 /-- a change of model fields the relation does not read -/
 theorem sim_same {cfg : Cfg} {a : Spec.A} {s s' : State} (hs : Sim cfg a s) (hm : s'.mods = s.mods)
-    (hl : s'.loggers = s.loggers) (hn : s'.nextUid = s.nextUid) (hf : s'.fail = s.fail) (hb : s'.buf = s.buf)
+    (hi : s'.idx = s.idx) (hl : s'.loggers = s.loggers) (hn : s'.nextUid = s.nextUid) (hf : s'.fail = s.fail) (hb : s'.buf = s.buf)
     (hw : s'.wlist = s.wlist) : Sim cfg a s' := by
   have hfind : ∀ u, s'.find u = s.find u := fun u => by unfold State.find; rw [hm]
   exact ⟨hs.uids, by rw [hn]; exact hs.nacc, by rw [hf]; exact hs.fail, by rw [hb]; exact hs.buf,
@@ -399,7 +399,8 @@ theorem sim_same {cfg : Cfg} {a : Spec.A} {s s' : State} (hs : Sim cfg a s) (hm 
     fun u h => by rw [hw]; exact hs.w u h, fun u m h1 h2 => by rw [hl]; exact hs.logIn u m (by rw [← hfind]; exact h1) h2,
     fun u m h1 h2 => hs.logOut u m (by rw [← hl]; exact h1) (by rw [← hfind]; exact h2),
     fun u m h1 h2 => hs.logConn u m (by rw [← hfind]; exact h1) h2, by rw [hl]; exact hs.logNodup,
-    by rw [hl, hn]; exact hs.logBound⟩
+    by rw [hl, hn]; exact hs.logBound,
+    fun u m t h1 h2 => by rw [hi]; exact hs.idxIn u m t (by rw [← hfind]; exact h1) h2, by rw [hi]; exact hs.idxPos⟩
 
 /-- an error extension (and any change of the statistics fields) of the abstract state -/
 theorem sim_coreExt {cfg : Cfg} {T : List String} {a a' : Spec.A} {s : State} (hs : Sim cfg a s) (h : Spec.CoreExt T a a') :
@@ -409,12 +410,12 @@ theorem sim_coreExt {cfg : Cfg} {T : List String} {a a' : Spec.A} {s : State} (h
   exact ⟨by rw [h.mods, h.nAccepted]; exact hs.uids, by rw [h.nAccepted]; exact hs.nacc, by rw [h.fail]; exact hs.fail,
     by rw [h.buf]; exact hs.buf, fun u hu => by rw [hlive]; exact hs.live u hu,
     fun u am m h1 h2 => hs.mods u am m (by rw [← hlive]; exact h1) h2,
-    fun u hl => by rw [h.w]; exact hs.w u (by rw [← hlive]; exact hl), hs.logIn, hs.logOut, hs.logConn, hs.logNodup, hs.logBound⟩
+    fun u hl => by rw [h.w]; exact hs.w u (by rw [← hlive]; exact hl), hs.logIn, hs.logOut, hs.logConn, hs.logNodup, hs.logBound, hs.idxIn, hs.idxPos⟩
 
 /-- the receive buffer is written on both sides -/
 theorem sim_buf {cfg : Cfg} {a : Spec.A} {s : State} (hs : Sim cfg a s) (b : List Nat) :
     Sim cfg { a with buf := b } { s with buf := b } :=
-  ⟨hs.uids, hs.nacc, hs.fail, rfl, hs.live, hs.mods, hs.w, hs.logIn, hs.logOut, hs.logConn, hs.logNodup, hs.logBound⟩
+  ⟨hs.uids, hs.nacc, hs.fail, rfl, hs.live, hs.mods, hs.w, hs.logIn, hs.logOut, hs.logConn, hs.logNodup, hs.logBound, hs.idxIn, hs.idxPos⟩
 
 theorem live_upd (a : Spec.A) (u v : Nat) (f : Spec.AMod → Spec.AMod) (hf : ∀ m, (f m).uid = m.uid)
     (ha : ∀ m, (f m).alive = m.alive) :
@@ -437,6 +438,7 @@ theorem sim_upd_find {cfg : Cfg} {a : Spec.A} {s s' : State} (hs : Sim cfg a s) 
     (hfind : ∀ v, s'.find v = (s.find v).map (fun m => if m.uid == u then fm m else m))
     (hl : s'.loggers = s.loggers) (hn : s'.nextUid = s.nextUid) (hf : s'.fail = s.fail) (hb : s'.buf = s.buf)
     (hw : s'.wlist = s.wlist)
+    (hidx : ∀ v m t, s'.find v = some m → t ∈ m.subs → v ∈ idxGet s'.idx t) (hpos : ∀ t v, v ∈ idxGet s'.idx t → v ≠ 0)
     (hrel : ∀ am m, a.live u = some am → s.find u = some m → SimMod cfg am m → SimMod cfg (fa am) (fm m))
     (hlg : ∀ m, (fm m).isLogger = m.isLogger) (hcn : ∀ m, (fm m).connected = m.connected) :
     Sim cfg (a.upd u fa) s' := by
@@ -444,7 +446,7 @@ theorem sim_upd_find {cfg : Cfg} {a : Spec.A} {s s' : State} (hs : Sim cfg a s) 
   refine ⟨by rw [Spec.uids_upd a u fa hfa]; exact hs.uids, by rw [hn]; exact hs.nacc, by rw [hf]; exact hs.fail,
     by rw [hb]; exact hs.buf, fun v hv => ?_, fun v am m h1 h2 => ?_,
     fun v hl' => ?_, fun v m h1 h2 => ?_, fun v m h1 h2 => ?_, fun v m h1 h2 => ?_, by rw [hl]; exact hs.logNodup,
-    by rw [hl, hn]; exact hs.logBound⟩
+    by rw [hl, hn]; exact hs.logBound, hidx, hpos⟩
   · rw [hlive, hfind, Option.isSome_map, Option.isSome_map]; exact hs.live v hv
   · rw [hlive] at h1; rw [hfind] at h2
     cases ha : a.live v with
@@ -505,9 +507,21 @@ theorem sim_upd {cfg : Cfg} {a : Spec.A} {s : State} (hs : Sim cfg a s) (u : Nat
     (fa : Spec.AMod → Spec.AMod) (fm : Module → Module)
     (hfa : ∀ m, (fa m).uid = m.uid) (haa : ∀ m, (fa m).alive = m.alive) (hfm : ∀ m, (fm m).uid = m.uid)
     (hrel : ∀ am m, a.live u = some am → s.find u = some m → SimMod cfg am m → SimMod cfg (fa am) (fm m))
-    (hlg : ∀ m, (fm m).isLogger = m.isLogger) (hcn : ∀ m, (fm m).connected = m.connected) :
-    Sim cfg (a.upd u fa) (s.upd u fm) :=
-  sim_upd_find hs u fa fm hfa haa (fun v => find_upd s u v fm hfm) rfl rfl rfl rfl rfl hrel hlg hcn
+    (hlg : ∀ m, (fm m).isLogger = m.isLogger) (hcn : ∀ m, (fm m).connected = m.connected)
+    (hsb : ∀ m, (fm m).subs = m.subs) :
+    Sim cfg (a.upd u fa) (s.upd u fm) := by
+  refine sim_upd_find hs u fa fm hfa haa (fun v => find_upd s u v fm hfm) rfl rfl rfl rfl rfl ?_ hs.idxPos hrel hlg hcn
+  intro v m' t hm' ht
+  rw [find_upd s u v fm hfm] at hm'
+  cases hm0 : s.find v with
+  | none => simp [hm0] at hm'
+  | some m0 =>
+    simp only [hm0, Option.map_some, Option.some.injEq] at hm'
+    refine hs.idxIn v m0 t hm0 ?_
+    subst hm'
+    split at ht
+    · rw [hsb] at ht; exact ht
+    · exact ht
 
 /-! ## the model's `readOne`, in the Spec's terms -/
 
@@ -621,7 +635,7 @@ theorem rdState_J {cfg : Cfg} {s : State} (h : J s) (rd : Read) : J (rdState cfg
 
 theorem rdState_sim {cfg : Cfg} {a : Spec.A} {s : State} (hs : Sim cfg a s) (rd : Read) :
     Sim cfg (Spec.afterBuf cfg a rd) (rdState cfg s rd) := by
-  have h1 : Sim cfg a (s.emit (.rd rd.uid)) := sim_same hs rfl rfl rfl rfl rfl rfl
+  have h1 : Sim cfg a (s.emit (.rd rd.uid)) := sim_same hs rfl rfl rfl rfl rfl rfl rfl
   have h2 := sim_buf h1 (Spec.bufAfter cfg s.buf rd)
   unfold Spec.afterBuf rdState
   rw [hs.buf]; exact h2
@@ -853,7 +867,7 @@ theorem seg_setName (hn : (rd.h.mtype == cfg.mtSetName) = true) (nm : List Nat)
       ((rdState cfg s rd).upd rd.uid (fun m => { m with name := nm })) :=
     sim_upd (rdState_sim inv.sim rd) rd.uid _ _ (fun _ => rfl) (fun _ => rfl) (fun _ => rfl)
       (fun am m _ _ h => ⟨h.connected, h.modId, h.unique, h.isLogger, h.isDaemon, rfl, h.pid, h.subs, h.noAll⟩)
-      (fun _ => rfl) (fun _ => rfl)
+      (fun _ => rfl) (fun _ => rfl) (fun _ => rfl)
   have t0 : Top cfg ((rdState cfg s rd).upd rd.uid (fun m => { m with name := nm })) :=
     top_upd ok hfuel (rdState_top ok hfuel inv.top rd) rd.uid _ (fun _ => rfl) (fun _ => rfl) (fun _ => rfl)
   have n := (logTop_nest cfg 20 ((rdState cfg s rd).upd rd.uid (fun m => { m with name := nm }))).trans
@@ -877,7 +891,7 @@ theorem seg_ready (hn : (rd.h.mtype == cfg.mtSetName) = false) (hr : (rd.h.mtype
       ((rdState cfg s rd).upd rd.uid (fun m => { m with pid := pid })) :=
     sim_upd (rdState_sim inv.sim rd) rd.uid _ _ (fun _ => rfl) (fun _ => rfl) (fun _ => rfl)
       (fun am m _ _ h => ⟨h.connected, h.modId, h.unique, h.isLogger, h.isDaemon, h.name, rfl, h.subs, h.noAll⟩)
-      (fun _ => rfl) (fun _ => rfl)
+      (fun _ => rfl) (fun _ => rfl) (fun _ => rfl)
   have t0 : Top cfg ((rdState cfg s rd).upd rd.uid (fun m => { m with pid := pid })) :=
     top_upd ok hfuel (rdState_top ok hfuel inv.top rd) rd.uid _ (fun _ => rfl) (fun _ => rfl) (fun _ => rfl)
   have n := sendInfo_nest cfg ((rdState cfg s rd).upd rd.uid (fun m => { m with pid := pid })) rd.uid
